@@ -18,9 +18,9 @@ INVS = ['KeysUnique', 'HistoryPreserved', 'ToolPreserves', 'FreshIdAbove']
 CLAUSES = {'HistCorrect', 'ToolPreserves', 'TxNumMap', 'NoUnexpectedDeath', 'ChainIsPath'}
 
 
-def cfg(ns, np_, maxrow, maxtx, steps, export):
+def cfg(ns, np_, maxrow, maxtx, steps, export, variant='code'):
     return (f'CONSTANTS NS = {ns} NP = {np_} MaxRow = {maxrow} MaxTx = {maxtx} MaxSteps = {steps} '
-            f'Export = {"TRUE" if export else "FALSE"}\nSPECIFICATION Spec\nVIEW View\nCHECK_DEADLOCK FALSE\n'
+            f'Export = {"TRUE" if export else "FALSE"} Variant = "{variant}"\nSPECIFICATION Spec\nVIEW View\nCHECK_DEADLOCK FALSE\n'
             + ('' if export else ''.join(f'INVARIANT {i}\n' for i in INVS)))
 
 
@@ -63,13 +63,20 @@ def check(pid, tier, seed):
         for (ns, np_, mr, mt, st) in ([(3, 2, 2, 4, 11)] if quick else [(3, 2, 2, 5, 13), (3, 3, 3, 5, 12), (2, 2, 1, 4, 12)]):
             sc.write('CM.cfg', cfg(ns, np_, mr, mt, st, False))
             res = model_check(sc, 'Compaction', 'CM.cfg', timeout=3000,
-                              expect_actions=('Flush', 'Backup', 'ServerStop', 'ServerStart', 'ToolStart', 'CompactBatch',
-                                              'SetFlushCount', 'Kill'))
+                              expect_actions=('Flush', 'Backup', 'ServerStop', 'ServerStart', 'Serve', 'ToolStart',
+                                              'CompactBatch', 'SetFlushCount', 'Kill'))
             if res.violated:
                 out.notes.append(f'TLC: Compaction.tla violates {res.violated}; verdict is taken from the real runs')
             elif not res.no_error:
                 raise MachineryError(res.out[-1500:])
             out.add(states=res.distinct, transitions=res.generated)
+        # the model must have teeth: without the second cancellation (on the re-open for serving) an abandoned
+        # compaction is resumed later and histories break
+        sc.write('CV.cfg', cfg(2, 2, 2, 3, 14, False, variant='nocancelserve'))
+        res = run_tlc(sc, 'Compaction', 'CV.cfg', timeout=1200)
+        if 'HistoryPreserved' not in res.violated and 'KeysUnique' not in res.violated and 'FreshIdAbove' not in res.violated:
+            raise MachineryError(f'Compaction.tla with Variant=nocancelserve shows no violation ({res.violated}): the model lost its teeth')
+        out.notes.append(f'Compaction.tla with Variant=nocancelserve violates {res.violated} as expected')
         # plans: random walks of the model that contain tool activity
         sc.write('CX.cfg', cfg(3, 3, 2, 6, 16, True))
         res = run_tlc(sc, 'Compaction', 'CX.cfg', simulate=f'num={8000 if quick else 60000}', depth=17, seed=seed or 3,
@@ -87,13 +94,17 @@ def check(pid, tier, seed):
         rng.shuffle(kept)
 
         def score(evs):
-            k = ''.join({'flush': 'f', 'backup': 'b', 'stop': 's', 'start': 'S', 'tool': 't', 'batch': 'c', 'setfc': 'x',
-                         'kill': 'k'}[e['e']] for e in evs)
+            k = ''.join({'flush': 'f', 'backup': 'b', 'stop': 's', 'start': 'S', 'serve': 'v', 'tool': 't', 'batch': 'c',
+                         'setfc': 'x', 'kill': 'k'}[e['e']] for e in evs)
             import re
             sc_ = sum(1 for e in evs if e['e'] in ('kill', 'batch', 'setfc', 'backup'))
             # an abandoned compaction, a server run that flushes while syncing and stops, the tool again, more blocks
-            if re.search(r'c+kSf+st', k):
+            if re.search(r'c+kSf+v[fb]*st', k):
                 sc_ += 20
+            # an abandoned compaction, a server that starts already caught up (nothing flushed between the two opens),
+            # indexes and stops, the tool again (to completion), more blocks
+            if re.search(r'c+kSv[fb]*f[fb]*stc+x', k):
+                sc_ += 25
             if re.search(r'x.*f.*s.*t.*c.*x.*S?.*f', k):
                 sc_ += 10      # two complete compactions with indexing in between and after
             if re.search(r'ck.*S.*f', k):
@@ -113,7 +124,7 @@ def check(pid, tier, seed):
             raise MachineryError(f'{len(errors)} executions failed in the harness, first:\n{errors[0]["error"]}\n{errors[0]["job"]}')
         keys = ('tree', 'activation', 'limit', 'steps')
         res, failures = validate_traces(sc, 'IndexTrace', 'IndexTrace.cfg', [{k: t[k] for k in keys} for t in traces],
-                                        workers=16, timeout=3000)
+                                        workers=16, timeout=3000, invariants=CLAUSES)
         out.add(traces_validated_against_impl=len(traces), plans=len(take), trace_states=res.distinct,
                 tool_batches=sum(1 for t in traces for s in t['steps'] if s.get('label') == 'batch'),
                 overflow_runs=sum(1 for t in traces if t.get('overflow')))
@@ -148,7 +159,7 @@ def replay(doc):
         print({k: v for k, v in s.items() if k in ('ev', 'label', 'h', 'hdrs', 'hfc', 'cc', 'cfc', 'ufc', 'rows', 'exc')})
     keys = ('tree', 'activation', 'limit', 'steps')
     with Scratch('c14r') as sc:
-        _res, failures = validate_traces(sc, 'IndexTrace', 'IndexTrace.cfg', [{k: t[k] for k in keys}], workers=2)
+        _res, failures = validate_traces(sc, 'IndexTrace', 'IndexTrace.cfg', [{k: t[k] for k in keys}], workers=2, invariants=CLAUSES)
     failures = [f for f in failures if f['clause'] in CLAUSES and not (t.get('overflow') and f['clause'] != 'ToolPreserves')]
     if failures:
         print(f"VIOLATION property={doc['property']} replay=(this file) clause={failures[0]['clause']}")
